@@ -51,14 +51,46 @@ class TlcResult(object):
             self.property_violated.append("temporal")
         self.assume_failed = "Assumption" in out and "is false" in out
         self.deadlock = "Deadlock reached" in out
-        self.tuples = [l for l in out.splitlines() if l.startswith("<<")]
+        self.tuples = self._tuples(out)
+
+    @staticmethod
+    def _tuples(out):
+        """top-level <<...>> values TLC printed, also when it wrapped them over several lines"""
+        res, buf, depth = [], [], 0
+        for line in out.splitlines():
+            if not buf and not line.startswith("<<"):
+                continue
+            buf.append(line.strip())
+            # count brackets outside strings
+            instr = False
+            i = 0
+            while i < len(line):
+                c = line[i]
+                if instr:
+                    if c == "\\":
+                        i += 1
+                    elif c == '"':
+                        instr = False
+                elif c == '"':
+                    instr = True
+                elif line.startswith("<<", i):
+                    depth += 1
+                    i += 1
+                elif line.startswith(">>", i):
+                    depth -= 1
+                    i += 1
+                i += 1
+            if depth <= 0:
+                res.append(" ".join(buf))
+                buf, depth = [], 0
+        return res
 
     def marked(self, tag):
         """PrintT(<<"TAG", a, b, ...>>) lines with simple scalar fields."""
         res = []
         pre = '<<"%s"' % tag
         for l in self.tuples:
-            if l.startswith(pre):
+            if l.replace("<< ", "<<", 1).startswith(pre):
                 res.append(parse_tla_tuple(l))
         return res
 
